@@ -309,3 +309,383 @@ def run_program(src, budget=40000):
         else:
             out[k] = '<%s>' % type(v).__name__
     return ('ok', out)
+
+
+# -------------------------------------------------------------------- control-flow function bodies
+#
+# Programs for the statement-range part of C06 (extract_function on runs of whole statements of a
+# function body).  A program is a few pure helper functions and one or two *entry* functions whose
+# bodies mix assignments, rebinding, augmented assignment, tuple assignment, if / elif / else, for
+# loops over tuple displays and tuple parameters (possibly empty; break / continue / else), try /
+# except / else / finally around a division by a parameter, and nested blocks.  Discipline:
+#   * every name that is read is definitely bound on every path (the original never raises
+#     UnboundLocalError / NameError); the only exception that can occur is ZeroDivisionError inside
+#     a `try` body that catches it;
+#   * values are ints (and tuples of ints for the iterable parameters), every statement is free of
+#     side effects other than binding local names; helpers are pure;
+#   * parameters are never rebound and every `if` condition is a test of parameters only (`p > 1`,
+#     `q % 2`, `p < q`, `not t`): argument tuples exist for every path (the oracle picks arguments until
+#     every line of the selection was executed), and jedi's flow analysis cannot decide a condition
+#     statically from a partial inference (`u = K; if u % 3:` is `always true` for it - root cause
+#     extract-function-unreachable-branch-name-becomes-parameter, kept alive by corpus/C06);
+# The behaviour of an entry function on an argument tuple is its return value.
+
+FLOW_LOCALS = ['acc', 'b', 'cnt', 'd', 'e', 'g', 'h', 'k', 'm', 'n', 'r', 's', 'tot', 'u', 'v', 'w', 'x', 'y', 'z',
+               'lo', 'hi', 'nxt', 'prev', 'out']
+FLOW_INT_ARGS = [0, 1, 2, 3, 5, -1, 7, 10]
+FLOW_TUPLE_ARGS = [(), (1,), (2, 3), (0, 1, 4), (5, 0), (3, 3, 3)]
+
+
+class FlowG:
+    def __init__(self, rng):
+        self.rng = rng
+        self.pool = list(FLOW_LOCALS)
+        rng.shuffle(self.pool)
+        self.n = 0
+        self.helpers = []        # (name, arity)
+        self.glob = []           # module-level int constants
+        self.loopvars = 0
+
+    def fresh(self):
+        self.n += 1
+        if self.n <= len(self.pool):
+            return self.pool[self.n - 1]
+        return '%s%d' % (self.pool[self.n % len(self.pool)], self.n // len(self.pool))
+
+    # ------------------------------------------------------------ expressions (int valued)
+    def atom(self, env):
+        r = self.rng.random()
+        if env and r < 0.7:
+            return self.rng.choice(env)
+        if self.glob and r < 0.76:
+            return self.rng.choice(self.glob)
+        return str(self.rng.randint(0, 9))
+
+    def expr(self, env, depth=2):
+        rng = self.rng
+        if depth <= 0 or rng.random() < 0.3:
+            return self.atom(env)
+        k = rng.random()
+        a = self.expr(env, depth - 1)
+        if k < 0.5:
+            op = rng.choice(['+', '-', '*', '+', '-'])
+            b = self.expr(env, depth - 1)
+            return '%s %s %s' % (self._par(a), op, self._par(b))
+        if k < 0.6:
+            return '%s %s %d' % (self._par(a), rng.choice(['//', '%']), rng.randint(2, 7))
+        if k < 0.7 and self.helpers:
+            f, n = rng.choice(self.helpers)
+            return '%s(%s)' % (f, ', '.join([a] + [self.expr(env, depth - 1) for _ in range(n - 1)]))
+        if k < 0.8:
+            return '%s if %s else %s' % (self._par(a), self._par(self.atom(env)), self._par(self.expr(env, depth - 1)))
+        if k < 0.86:
+            return '-%s' % self._par(a)
+        if k < 0.93:
+            return '(%s %s %s)' % (self._par(a), rng.choice(['and', 'or']), self._par(self.expr(env, depth - 1)))
+        return '(%s, %s)[%s %% 2]' % (a, self.expr(env, depth - 1), self._par(self.atom(env)))
+
+    @staticmethod
+    def _par(t):
+        import re as _re
+        return t if _re.fullmatch(r'\w+|\w+\([^()]*\)|\([^()]*\)', t) else '(%s)' % t
+
+    def cond(self, params, tuples=None):
+        """a test of (never rebound) parameters only"""
+        rng = self.rng
+        if tuples and (not params or rng.random() < 0.25):
+            return rng.choice(['%s', 'not %s']) % rng.choice(tuples)
+        a = rng.choice(params)
+        k = rng.random()
+        if k < 0.4:
+            return '%s %s %d' % (a, rng.choice(['>', '<', '>=', '==', '!=']), rng.randint(0, 3))
+        if k < 0.6:
+            return '%s %% %d' % (a, rng.randint(2, 3))
+        if k < 0.8 and len(params) > 1:
+            return '%s %s %s' % (a, rng.choice(['<', '>', '==', '<=']), rng.choice([x for x in params if x != a]))
+        if k < 0.9:
+            return 'not %s' % a
+        return a
+
+    # ------------------------------------------------------------ statements
+    def block(self, env, ctx, ind, depth, n=None, in_loop=False):
+        """-> (lines, env after the block): `env` = int names definitely bound, in binding order;
+        ctx: dict(params=[int params], tuples=[tuple params], assignable=[names a nested block may rebind])"""
+        rng = self.rng
+        lines = []
+        env = list(env)
+        ro = set(ctx['params'])
+        for _ in range(n if n is not None else rng.randint(2, 4)):
+            k = rng.random()
+            loc = [x for x in env if x not in ro]
+            if k < 0.17 or not loc:
+                v = self.fresh()
+                lines.append('%s%s = %s' % (ind, v, self.expr(env)))
+                env.append(v)
+            elif k < 0.33:
+                # rebinding (the right-hand side often mentions the old value)
+                v = rng.choice(loc)
+                e = self.expr(env)
+                if rng.random() < 0.35 and v not in e:
+                    e = '%s %s %s' % (v, rng.choice('+-*'), self._par(e))
+                lines.append('%s%s = %s' % (ind, v, e))
+            elif k < 0.43:
+                v = rng.choice(loc)
+                lines.append('%s%s %s= %s' % (ind, v, rng.choice(['+', '-', '*', '+']), self.expr(env, 1)))
+            elif k < 0.48 and len(loc) >= 2:
+                a, b = rng.sample(loc, 2)
+                if rng.random() < 0.5:
+                    lines.append('%s%s, %s = %s, %s' % (ind, a, b, b, a))
+                else:
+                    lines.append('%s%s, %s = %s, %s' % (ind, a, b, self.expr(env, 1), self.expr(env, 1)))
+            elif k < 0.51:
+                a, b = self.fresh(), rng.choice(loc)
+                lines.append('%s%s = %s = %s' % (ind, a, b, self.expr(env, 1)))
+                env.append(a)
+            elif k < 0.71 and depth > 0:
+                ls, env = self.if_stmt(env, ctx, ind, depth, in_loop)
+                lines += ls
+            elif k < 0.86 and depth > 0:
+                ls, env = self.for_stmt(env, ctx, ind, depth)
+                lines += ls
+            elif k < 0.94 and depth > 0 and ctx['params']:
+                ls, env = self.try_stmt(env, ctx, ind, depth, in_loop)
+                lines += ls
+            elif k < 0.97 and self.helpers:
+                f, n_ = rng.choice(self.helpers)
+                lines.append('%s%s(%s)' % (ind, f, ', '.join(self.expr(env, 1) for _ in range(n_))))
+            else:
+                v = self.fresh()
+                lines.append('%s%s = %s' % (ind, v, self.expr(env)))
+                env.append(v)
+        return lines, env
+
+    def mention(self, env, v, depth=1):
+        """an expression that reads `v`"""
+        e = self.expr(env, depth)
+        if v in e.replace('(', ' ').replace(')', ' ').replace(',', ' ').split():
+            return e
+        return '%s %s %s' % (v, self.rng.choice('+-*'), self._par(e))
+
+    def branch(self, env, ctx, ind, depth, joint, in_loop, n=None, rebind=None, read=None):
+        """a nested suite: rebinding / reading statements, then every `joint` name is assigned.
+        rebind: a name bound in front of the statement that this branch binds anew before it reads it;
+        read: a name this branch reads (its value from before the statement, unless rebound here)"""
+        rng = self.rng
+        lines = []
+        if rebind is not None:
+            others = [x for x in env if x != rebind]
+            lines.append('%s%s = %s' % (ind, rebind, self.expr(others, 1)))
+        ls, inner = self.block(env, ctx, ind, depth - 1, n if n is not None else rng.randint(0, 2), in_loop)
+        lines += ls
+        for v in joint:
+            if read is not None or rebind is not None:
+                lines.append('%s%s = %s' % (ind, v, self.mention(inner, read or rebind)))
+            else:
+                lines.append('%s%s = %s' % (ind, v, self.expr(inner)))
+        tgt = [x for x in inner if x != (read or rebind) and x not in ctx['params']]
+        if not joint and (read or rebind) and tgt:
+            lines.append('%s%s = %s' % (ind, rng.choice(tgt), self.mention(inner, read or rebind)))
+        if not lines:
+            lines.append('%spass' % ind)
+        return lines
+
+    def if_stmt(self, env, ctx, ind, depth, in_loop):
+        rng = self.rng
+        lines = []
+        joint = [self.fresh()] if rng.random() < 0.6 else []
+        has_else = bool(joint) or rng.random() < 0.5
+        style = rng.random()
+        if joint and style < 0.25:
+            # the joint name is initialised in front of the statement instead of in an else branch
+            lines.append('%s%s = %s' % (ind, joint[0], self.expr(env, 1)))
+            has_else = rng.random() < 0.3
+        # a name that some branches bind anew (and then read) while the others read the value it had in
+        # front of the statement; which branch comes first in the text varies
+        loc = [x for x in env if x not in ctx['params']]
+        shared = rng.choice(loc) if loc and rng.random() < 0.5 else None
+        roles = [rng.random() < 0.5 for _ in range(3)]
+        if shared is not None and not any(roles):
+            roles[rng.randrange(2)] = True
+
+        def br(k):
+            if shared is None:
+                return self.branch(env, ctx, ind + '    ', depth, joint, in_loop)
+            if roles[k]:
+                return self.branch(env, ctx, ind + '    ', depth, joint, in_loop, rebind=shared)
+            return self.branch(env, ctx, ind + '    ', depth, joint, in_loop, read=shared)
+        lines.append('%sif %s:' % (ind, self.cond(ctx['params'], ctx['tuples'])))
+        lines += br(0)
+        if rng.random() < 0.25:
+            lines.append('%selif %s:' % (ind, self.cond(ctx['params'], ctx['tuples'])))
+            lines += br(1)
+        if has_else:
+            lines.append('%selse:' % ind)
+            lines += br(2)
+        after = env + joint
+        if shared is not None and rng.random() < 0.5:
+            # ... and the possibly-rebound name is read behind the statement
+            v = self.fresh()
+            lines.append('%s%s = %s' % (ind, v, self.mention(after, shared)))
+            after = after + [v]
+        return lines, after
+
+    def for_stmt(self, env, ctx, ind, depth):
+        rng = self.rng
+        lines = []
+        self.loopvars += 1
+        i = 'ijlq'[self.loopvars % 4] + ('' if self.loopvars < 4 else str(self.loopvars))
+        k = rng.random()
+        maybe_empty = False
+        if ctx['tuples'] and k < 0.45:
+            it = rng.choice(ctx['tuples'])
+            maybe_empty = True
+            if rng.random() < 0.3:
+                it = '%s + (%s,)' % (it, self.expr(env, 1))
+                maybe_empty = False
+        else:
+            it = '(%s)' % ', '.join(self.expr(env, 1) for _ in range(rng.randint(2, 3)))
+        pre = rng.random() < 0.35
+        if pre:
+            lines.append('%s%s = %s' % (ind, i, self.expr(env, 0)))
+        if not [x for x in env if x not in ctx['params']] or rng.random() < 0.4:
+            acc = self.fresh()
+            lines.append('%s%s = %s' % (ind, acc, self.expr(env, 0)))
+            env = env + [acc]
+        loc = [x for x in env if x not in ctx['params']]
+        lines.append('%sfor %s in %s:' % (ind, i, it))
+        sub = ind + '    '
+        body_env = env + [i]
+        body = []
+        if rng.random() < 0.35:
+            body.append('%sif %s:' % (sub, self.cond(ctx['params'], ctx['tuples'])))
+            body.append('%s    %s' % (sub, rng.choice(['continue', 'break', 'continue'])))
+        acc = rng.choice(loc)
+        form = rng.random()
+        if form < 0.4:
+            body.append('%s%s = %s + %s' % (sub, acc, acc, self._par(self.expr(body_env, 1))))
+        elif form < 0.6:
+            body.append('%s%s += %s' % (sub, acc, self.expr(body_env, 1)))
+        elif form < 0.8:
+            t = self.fresh()
+            body.append('%s%s = %s + %s' % (sub, t, acc, self._par(self.expr(body_env, 1))))
+            body.append('%s%s = %s * 2 %% 1000' % (sub, acc, t))
+        ls, _ = self.block(body_env, ctx, sub, depth - 1, rng.randint(0 if body else 1, 2), True)
+        body += ls
+        lines += body
+        if rng.random() < 0.15:
+            lines.append('%selse:' % ind)
+            lines.append('%s    %s = %s' % (ind, rng.choice(loc), self.expr(env, 1)))
+        after = list(env)
+        if pre or not maybe_empty:
+            if rng.random() < 0.6:
+                after.append(i)
+        return lines, after
+
+    def try_stmt(self, env, ctx, ind, depth, in_loop):
+        rng = self.rng
+        lines = []
+        v = self.fresh()
+        p = rng.choice(ctx['params'])
+        sub = ind + '    '
+        lines.append('%stry:' % ind)
+        pre, inner = self.block(env, ctx, sub, 0, rng.randint(0, 1), in_loop) if env else ([], env)
+        lines += pre
+        lines.append('%s%s = %s // %s' % (sub, v, self._par(self.expr(inner, 1)), p))
+        if rng.random() < 0.4:
+            # after the raising point only names that are bound in front of the statement are rebound
+            x = rng.choice([y_ for y_ in inner if y_ not in ctx['params']] + [v])
+            lines.append('%s%s = %s' % (sub, x, self.expr(inner + [v], 1)))
+        lines.append('%sexcept ZeroDivisionError:' % ind)
+        hb, _ = self.block(env, ctx, sub, 0, rng.randint(0, 1), in_loop) if env else ([], env)
+        lines += hb
+        lines.append('%s%s = %s' % (sub, v, self.expr(env, 1)))
+        r = rng.random()
+        if r < 0.2:
+            lines.append('%selse:' % ind)
+            lines.append('%s%s = %s + 1' % (sub, v, v))
+        elif r < 0.4 and [x for x in env if x not in ctx['params']]:
+            lines.append('%sfinally:' % ind)
+            lines.append('%s%s = %s' % (sub, rng.choice([x for x in env if x not in ctx['params']]),
+                                        self.expr(env, 1)))
+        return lines, env + [v]
+
+    # ------------------------------------------------------------ whole program
+    def function(self, name, ind='', method=False):
+        rng = self.rng
+        params = ['p', 'q', 'c'][:rng.randint(1, 3)]
+        tuples = ['t'] if rng.random() < 0.6 else []
+        sig = ([] if not method else ['self']) + params + tuples
+        lines = ['%sdef %s(%s):' % (ind, name, ', '.join(sig))]
+        ctx = {'params': params, 'tuples': tuples}
+        env = list(params)
+        sub = ind + '    '
+        # one or two locals in front, so that selections have something bound before them
+        for _ in range(rng.randint(1, 2)):
+            v = self.fresh()
+            lines.append('%s%s = %s' % (sub, v, self.expr(env, 1)))
+            env.append(v)
+        body, env = self.block(env, ctx, sub, 2, rng.randint(3, 5))
+        lines += body
+        keep = [v for v in env if rng.random() < 0.85] or env[-1:]
+        lines.append('%sreturn (%s,)' % (sub, ', '.join(keep)))
+        return lines, {'params': params, 'tuples': tuples}
+
+    def program(self):
+        rng = self.rng
+        lines = []
+        if rng.random() < 0.5:
+            self.glob.append('K')
+            lines.append('K = %d' % rng.randint(2, 9))
+            lines.append('')
+        for hn in ['mix', 'twice'][:rng.randint(0, 2)]:
+            ar = rng.randint(1, 2)
+            ps = ['a', 'bb'][:ar]
+            lines.append('def %s(%s):' % (hn, ', '.join(ps)))
+            lines.append('    return %s' % self.expr(ps, 1))
+            lines += ['', '']
+            self.helpers.append((hn, ar))
+        entries = []
+        for fn in ['f', 'g2'][:1 if rng.random() < 0.7 else 2]:
+            if rng.random() < 0.2:
+                cls = 'Box' + fn.upper()[0]
+                lines.append('class %s:' % cls)
+                ls, sig = self.function(fn, '    ', method=True)
+                lines += ls
+                entry = '%s().%s' % (cls, fn)
+            else:
+                ls, sig = self.function(fn)
+                lines += ls
+                entry = fn
+            lines += ['', '']
+            entries.append({'entry': entry, 'name': fn, 'params': sig['params'], 'tuples': sig['tuples']})
+        while lines and lines[-1] == '':
+            lines.pop()
+        return lines, entries
+
+
+def gen_flow_program(rng, eol='\n'):
+    """-> (source, [entry]): entry = dict(entry=<expression that evaluates to the callable>, name=<def name>,
+    params=[int parameter names], tuples=[tuple parameter names])"""
+    lines, entries = FlowG(rng).program()
+    return eol.join(lines) + eol, entries
+
+
+def flow_arguments(rng, entry, n, corners=True):
+    """`n` argument tuples (as literal source text) for an entry function: corner tuples first, then random"""
+    np_, nt = len(entry['params']), len(entry['tuples'])
+    out = []
+    seen = set()
+
+    def add(ints, tups):
+        a = tuple(ints) + tuple(tups)
+        if a not in seen:
+            seen.add(a)
+            out.append(repr(a))
+    for v in (0, 1, 2) if corners else ():
+        for t in (FLOW_TUPLE_ARGS[0], FLOW_TUPLE_ARGS[2]):
+            add([v] * np_, [t] * nt)
+    tries = 0
+    while len(out) < n and tries < 10 * n:
+        tries += 1
+        add([rng.choice(FLOW_INT_ARGS) for _ in range(np_)], [rng.choice(FLOW_TUPLE_ARGS) for _ in range(nt)])
+    return out[:n]
